@@ -6,7 +6,7 @@ import math
 STR_POOL = ["", "a", "b", "ab", "abc", "x", "p_1", "class", "a b", "foo", "A", "zz", "é", "日本", "a\tb",
             "0", "12", "b1", "aaa", "xyz", "hello world"]
 KEY_POOL = ["a", "b", "c", "x", "p_1", "class", "a b", "a-b", "a_b", "foo", "$id", "b1", "default", "items",
-            "é", "0", "self_", "name", "type"]
+            "é", "0", "self_", "name", "type", "__dict__", "__weakref__", "__class__", "__module__", "__slots__"]
 SAFE_KEY_POOL = ["a", "b", "c", "x", "p_1", "class", "foo", "$id", "b1", "name", "type", "é", "0", "my key"]
 PATTERNS = ["^a", "b$", "^[a-c]+$", "x", "^p_", "^.$", "1", "^(foo|b1)$", "^$", "[0-9]"]
 FORMATS = ["uuid", "date-time", "my-format", "email"]
